@@ -39,10 +39,12 @@ inductive MsgV where
   | failed
   deriving Repr, DecidableEq, Inhabited
 
-/-- what the `delay` member evaluated to (`int(f"{delay}")`) -/
+/-- what the `delay` member evaluated to, read the way the repaired retry arm reads it (/repo
+    7c6f12a, b49864f): `int(delay)`, where a float (CEL doubles included) must be a whole number -/
 inductive DelayV where
-  | ok (n : Int)
-  | notInt             -- evaluates, but `int(…)` raises (ValueError)
+  | ok (n : Int)       -- an int, a bool (0/1), an integral float, a numeral string
+  | notInt             -- evaluates, but is a fractional float or something `int(…)` rejects
+                       -- (TypeError / ValueError / OverflowError) ⇒ PermFail "Invalid retry delay"
   | failed             -- evaluation error
   deriving Repr, DecidableEq, Inhabited
 
@@ -57,7 +59,7 @@ structure Pred where
 inductive Why where
   | assertion          -- `!predicate.assert` was an error for some element
   | member             -- an error object inside a surviving predicate (message, delay)
-  | badDelay           -- `int(f"{delay}")` raised
+  | badDelay           -- the retry arm's own PermFail for a delay that is not a whole number
   | unknownKind        -- the `case _` branch
   deriving Repr, DecidableEq, Inhabited
 
